@@ -42,6 +42,10 @@ EXPLANATION = (
     ' classes is dead (the check it stands for is not made; Point(None) is a point with None coordinates), and'
     ' Point(self.<Maybe accessor>) is reported; since the expected count on the tree is zero the recogniser is'
     ' run on a built-in example on every run.'
+    ' R09.1 reports a lexer branch that collects the operands of several groups in a list before it calls the'
+    ' builder (the ValueError of a later malformed group would then be raised before the segments of the valid'
+    " groups exist). R09.8 also requires every `self.<f> *= other` in a segment's __imul__ whose field the"
+    ' constructors can leave None to be dominated by `self.<f> is not None`.'
 )
 TECHNIQUE = (
     "static analysis (no execution): nullness of lexer operands at builder calls (value tracking + token-language implications decided on regex automata); tokenizer loop summaries per token alternative (progress); ValueError-only raise lint; callee nullness summaries"
